@@ -316,6 +316,37 @@ def rewrite_aliases(tx):
             continue
         out.append(tx[i])
         i += 1
+    # closure bodies: `|..| { EXPR }` == `|..| EXPR` (rustfmt adds the braces when it wraps)
+    out2 = []
+    i = 0
+    n = len(out)
+    skip_close = []
+    while i < n:
+        if out[i] == "{" and i > 0 and out[i - 1] in ("||", "|"):
+            # `|` must close a parameter list (or be the empty `||`)
+            d = 0
+            j = i
+            single = True
+            while j < n:
+                if out[j] in ("{", "(", "["):
+                    d += 1
+                elif out[j] in ("}", ")", "]"):
+                    d -= 1
+                    if d == 0:
+                        break
+                elif out[j] == ";" and d == 1:
+                    single = False
+                j += 1
+            if single and j < n and out[i + 1] not in ("}",):
+                skip_close.append(j)
+                i += 1
+                continue
+        if i in skip_close:
+            i += 1
+            continue
+        out2.append(out[i])
+        i += 1
+    out = out2
     # unsafe { CopyOnDrop { .. } } -> CopyOnDrop { .. }
     res = []
     i = 0
